@@ -38,3 +38,81 @@ func c18Laws(c *ctx) {
 }
 
 func init() { cmds["c18laws"] = c18Laws }
+
+// c18 pairs: a table lookup must not depend on the lookup made before it. Every ordered pair of
+// (lunar month, day pillar) keys for the spirit lists, sampled predecessors for the suitable/avoid lists;
+// the values seen for each key are grouped (one value per key is the specification's demand).
+func c18Pairs(c *ctx) {
+	groups := map[string]map[string]bool{}
+	note := func(attr, key, val string) {
+		k := attr + "|" + key
+		if groups[k] == nil {
+			groups[k] = map[string]bool{}
+		}
+		groups[k][val] = true
+	}
+	type key2 struct {
+		m  int
+		gz string
+	}
+	keys := []key2{}
+	for m := 1; m <= 12; m++ {
+		for _, gz := range LunarUtil.JIA_ZI {
+			keys = append(keys, key2{m, gz})
+		}
+	}
+	for i1, k1 := range keys {
+		if !c.mine(i1) {
+			continue
+		}
+		for _, k2 := range keys {
+			LunarUtil.GetDayJiShen(k1.m, k1.gz)
+			note("LunarUtil.GetDayJiShen", render1(k2.m)+","+k2.gz, render1(LunarUtil.GetDayJiShen(k2.m, k2.gz)))
+			LunarUtil.GetDayXiongSha(k1.m, k1.gz)
+			note("LunarUtil.GetDayXiongSha", render1(k2.m)+","+k2.gz, render1(LunarUtil.GetDayXiongSha(k2.m, k2.gz)))
+		}
+	}
+	np := c.argInt("pred", 30)
+	for ia, a := range LunarUtil.JIA_ZI {
+		if !c.mine(ia) {
+			continue
+		}
+		for _, b := range LunarUtil.JIA_ZI {
+			for i := 0; i < np; i++ {
+				p1, p2 := LunarUtil.JIA_ZI[c.rng.Intn(60)], LunarUtil.JIA_ZI[c.rng.Intn(60)]
+				LunarUtil.GetDayYi(p1, p2)
+				note("LunarUtil.GetDayYi", a+","+b, render1(LunarUtil.GetDayYi(a, b)))
+				LunarUtil.GetDayJi(p1, p2)
+				note("LunarUtil.GetDayJi", a+","+b, render1(LunarUtil.GetDayJi(a, b)))
+				LunarUtil.GetTimeYi(p1, p2)
+				note("LunarUtil.GetTimeYi", a+","+b, render1(LunarUtil.GetTimeYi(a, b)))
+				LunarUtil.GetTimeJi(p1, p2)
+				note("LunarUtil.GetTimeJi", a+","+b, render1(LunarUtil.GetTimeJi(a, b)))
+			}
+		}
+	}
+	batch := []obj{}
+	for k, vs := range groups {
+		vals := []string{}
+		for v := range vs {
+			vals = append(vals, v)
+		}
+		i := 0
+		for j := range k {
+			if k[j] == '|' {
+				i = j
+				break
+			}
+		}
+		batch = append(batch, obj{"attr": k[:i], "key": k[i+1:], "vals": vals, "w": []string{"all / sampled predecessor lookups"}})
+		if len(batch) == 500 {
+			c.emit(obj{"ev": "FDGroups", "prop": "C18", "g": batch})
+			batch = []obj{}
+		}
+	}
+	if len(batch) > 0 {
+		c.emit(obj{"ev": "FDGroups", "prop": "C18", "g": batch})
+	}
+}
+
+func init() { cmds["c18pairs"] = c18Pairs }
